@@ -30,6 +30,7 @@ use vsim::SimProvider;
 pub use vref::update::Rr;
 
 pub mod kinds;
+pub mod lifecycle;
 pub mod raw;
 
 pub const ORIGIN: &str = "z.";
